@@ -92,7 +92,7 @@ def compact(plan):
         for o in plan["ops"][k][:3]:
             first.append({"t": int(k), **{x: o[x] for x in o if x in ("k", "i", "v", "a", "what", "station", "charger", "value", "site", "n")}})
     return {"network": sp["network"]["kind"], "step_s": sp["sim"]["timestep_duration_seconds"], "start": sp["sim"]["start_time"],
-            "cancel_s": sp["sim"]["request_cancel_time_seconds"], "search_res": sp["sim"]["sim_h3_search_resolution"],
+            "cancel_s": sp["sim"]["request_cancel_time_seconds"], "time_format": sp.get("time_format", "epoch"), "search_res": sp["sim"]["sim_h3_search_resolution"],
             "fleets": sorted(sp["fleets"]) if sp.get("fleets") else None, "humans": sum(1 for v in sp["vehicles"] if v.get("schedule")),
             "mech": sorted({v["mech"] for v in sp["vehicles"]}), "prices": (sp["prices"]["by"], len(sp["prices"]["rows"])) if sp.get("prices") else None,
             "generators": rs.get("generators"), "buggify": rs.get("buggify"), "lazy": rs.get("lazy"), "p_ext": rs.get("p_ext"),
